@@ -7,3 +7,7 @@ mod tasks;
 pub use event::{Event, ProcessorError, ProcessorStatus};
 pub(crate) use pipeline::Pipeline;
 pub(crate) use tasks::TaskTracker;
+
+// Verification hook: crate-wide visibility of the task handle for `crate::verif_c14`.
+#[cfg(p2panda_p2panda_verif)]
+pub(crate) use tasks::Task;
